@@ -105,7 +105,23 @@ func mutateBytes(t *rapid.T, b []byte) []byte {
 	if len(out) == 0 {
 		return []byte{rapid.Byte().Draw(t, "mutb0")}
 	}
-	switch rapid.IntRange(0, 5).Draw(t, "bmut") {
+	switch rapid.IntRange(0, 7).Draw(t, "bmut") {
+	case 6: // a run of bytes >= 0x80 (in a JSON string: invalid UTF-8 that the
+		// parser replaces, growing the unquoted text beyond its source)
+		i := rapid.IntRange(0, len(out)).Draw(t, "bmuti")
+		n := rapid.IntRange(3, 24).Draw(t, "bmutrun")
+		run := make([]byte, n)
+		for j := range run {
+			run[j] = byte(rapid.SampledFrom([]int{0x80, 0xbf, 0xc0, 0xc3, 0xe2, 0xed, 0xf0, 0xf4, 0xfe, 0xff}).Draw(t, "bmuthi"))
+		}
+		out = append(out[:i], append(run, out[i:]...)...)
+		return out
+	case 7: // repeat a slice of the document
+		i := rapid.IntRange(0, len(out)-1).Draw(t, "bmuti")
+		j := rapid.IntRange(i+1, min(len(out), i+16)).Draw(t, "bmutj")
+		rep := append([]byte{}, out[i:j]...)
+		out = append(out[:j], append(rep, out[j:]...)...)
+		return out
 	case 0: // truncate
 		return out[:rapid.IntRange(0, len(out)-1).Draw(t, "bmuttr")]
 	case 1: // bit flip
